@@ -516,8 +516,17 @@ func ruleRemOrder(w *World, r *Report) {
 }
 
 // BOLT-ERR (C06): errors of the bolt API reach the caller of the storage back end.
-func ruleBoltErr(w *World, r *Report) {
-	r.Rule("BOLT-ERR", "in the Bolt storage back end the error of every bolt call (Put, Delete, CreateBucket..., DeleteBucket, and of the View/Update transactions themselves) reaches the result of the transaction closure and of the Storage method: a failed write is never acknowledged", 6)
+func ruleBoltErr(w *World, r *Report) { ruleBoltErrIn("storage/bolt", 6)(w, r) }
+
+// ruleBoltErrIn: the same discipline for any package that talks to bolt (the Bolt storage back end, crolt).
+func ruleBoltErrIn(pkg string, floor int) ruleFn {
+	return func(w *World, r *Report) {
+		boltErrIn(w, r, pkg, floor)
+	}
+}
+
+func boltErrIn(w *World, r *Report, pkg string, floor int) {
+	r.Rule("BOLT-ERR", "in the packages that talk to Bolt (the storage back end; the crolt cron service) the error of every bolt call (Put, Delete, CreateBucket..., DeleteBucket, and of the View/Update transactions themselves) reaches the result of the transaction closure and of the calling method: a failed write is never acknowledged", floor)
 	isSrc := func(c *ssa.CallCommon) (string, bool) {
 		o := calleeObj(c)
 		if o == nil || o.Pkg() == nil || o.Pkg().Path() != boltPath || errorResultIndex(c.Signature()) < 0 {
@@ -531,8 +540,8 @@ func ruleBoltErr(w *World, r *Report) {
 		return "bolt." + name, true
 	}
 	srcs := &errSourceSet{w: w, isSource: isSrc, carries: map[*ssa.Function]string{}}
-	scope := func(fn *ssa.Function) bool { return w.RelPkg(fn) == "storage/bolt" }
-	runErrFlow(w, r, "BOLT-ERR", srcs, scope, nil, errflowCfg{handler: defaultErrHandlers, allowClassify: true, successOnly: true})
+	scope := func(fn *ssa.Function) bool { return w.RelPkg(fn) == pkg }
+	runErrFlow(w, r, "BOLT-ERR", srcs, scope, boltErrExemptions, errflowCfg{handler: defaultErrHandlers, allowClassify: true, successOnly: true})
 }
 
 // RESP-LAST (C18): the success output of an /api/loc case is written after everything that can fail.
@@ -1537,11 +1546,32 @@ func ruleLoopAlias(w *World, r *Report) {
 var loopExhaustTable = []struct{ Rel, Type, Name, Why string }{
 	{"core", "", "extractTermsAux", "the terms of a fact are the union over all its keys and elements: a key that is not visited is not indexed, and the fact is not a candidate for searches (and deleteWith cascades) on that key"},
 	{"core", "", "ExtractTerms", "as above"},
+	// collectors: every element of what they range over ends up in what they build
+	{"core", "", "mapToPairs", "every key of a pattern / event becomes a pair of the trie walk"},
+	{"core", "", "cast", "every element of a container is converted for the matcher"},
+	{"core", "", "ISlice", "every element of a typed slice is converted"},
+	{"core", "Bindings", "Bind", "every entry / element of the pattern is bound"},
+	{"core", "", "ExtendBindings", "every incoming and every found binding goes into the extended binding"},
+	{"core", "Bindings", "StripQuestionMarks", "every binding becomes a script variable"},
+	{"core", "StringSet", "AddAll", "set union"},
+	{"core", "StringSet", "Intersect", "set intersection looks at every element"},
+	{"core", "StringSet", "Array", "every id of a candidate set is visited"},
+	{"core", "TermIndex", "RemIdTerms", "an id is removed from every one of its terms"},
+	{"core", "TermIndex", "RemID", "as above"},
+	{"core", "IndexedState", "add", "every term of a fact is indexed"},
+	{"core", "IndexedState", "rem", "every term of a fact is un-indexed"},
+	{"core", "IndexedState", "deleteDependencies", "every dependent is removed"},
+	{"core", "LinearState", "deleteDependencies", "every dependent is removed"},
+	{"core", "IndexedState", "search", "every candidate is examined"},
+	{"core", "LinearState", "search", "every stored fact is examined"},
+	{"core", "IndexedState", "doFindRules", "every candidate rule is examined"},
+	{"core", "LinearState", "doFindRules", "every stored rule is examined"},
+	{"core", "SearchResults", "Merge", "every found fact of an ancestor is merged"},
 }
 
 func ruleLoopExhaust(prop string) ruleFn {
 	return func(w *World, r *Report) {
-		r.Rule("LOOP-EXHAUST", "the loops of the term extractor (which feeds the fact index used by search and by the deleteWith cascade) are left only by exhaustion or by an error: no `break` and no success return inside them, so every key and element contributes its terms whatever the map's iteration order (table of functions in the checker; examples in rulint/fixtures/patterns are matched on every run)", 2)
+		r.Rule("LOOP-EXHAUST", "the loops of the collectors (the term extractor that feeds the fact index, the conversions in front of the matcher, binding substitution and extension, set operations, index maintenance, the cascade, the candidate loops of search and rule lookup) are left only by exhaustion or by an error: no `break` and no success return inside them, so every key, element, term, candidate and dependent is processed whatever the iteration order (table of functions with one reason each in the checker; a function that no longer exists is listed as not decided; examples in rulint/fixtures/patterns are matched on every run)", 8)
 		match := func(fn *ssa.Function) int {
 			n := 0
 			for _, l := range naturalLoops(fn) {
@@ -2213,4 +2243,9 @@ func ruleParentsValue(prop string) ruleFn {
 			r.ok("PARENTS-VALUE", key, w.PosOf(site), "a slice made in this call on every path")
 		}
 	}
+}
+
+// boltErrExemptions: call sites (function + callee) where dropping a bolt error is accepted, with the reason.
+var boltErrExemptions = map[string]string{
+	"BOLT-ERR|fn=crolt.main call=(*github.com/boltdb/bolt.DB).Close": "deferred Close of the database when the command exits: nothing is acknowledged to anybody at that point",
 }
